@@ -3,6 +3,7 @@ package godi
 import (
 	"context"
 	"fmt"
+	"maps"
 	"reflect"
 	"strconv"
 	"sync"
@@ -278,8 +279,8 @@ func (sc *collection) doBuild(ctx context.Context) (Provider, error) {
 
 	p := &provider{
 		id:                          "p" + strconv.FormatUint(atomic.AddUint64(&providerIDCounter, 1), 36),
-		services:                    sc.services,
-		groups:                      sc.groups,
+		services:                    maps.Clone(sc.services), // snapshot: later changes to the collection do not reach the provider
+		groups:                      cloneGroups(sc.groups),
 		graph:                       g,
 		analyzer:                    sc.analyzer, // Share analyzer from collection
 		singletonKeys:               make([]instanceKey, 0, len(allDescriptors)),
@@ -776,6 +777,16 @@ func (c *collection) validateDependencies(descriptors []*Descriptor) error {
 	}
 
 	return nil
+}
+
+// cloneGroups copies the group table including the member lists.
+func cloneGroups(groups map[GroupKey][]*Descriptor) map[GroupKey][]*Descriptor {
+	clone := make(map[GroupKey][]*Descriptor, len(groups))
+	for key, members := range groups {
+		clone[key] = append([]*Descriptor(nil), members...)
+	}
+
+	return clone
 }
 
 // groupProvider is the dependency-graph node of a whole group: it depends on
